@@ -374,17 +374,38 @@ def check_transitions(p, r):
                         return S
                 raise ValueError(ast.unparse(t))
             want = {(True, False): {'IDLE_STATE'}, (True, True): {'IDLE_STATE'}, (False, False): {'MOVING_STATE'}, (False, True): STALLED}
+
+            def states_set(stmts, acc):
+                """states passed to set_conveyor_state by the statements, following nested ifs on the accumulation flag for acc in (True, False, None=both)"""
+                got = set()
+                for x in stmts:
+                    if isinstance(x, ast.If) and acc is not None:
+                        t_ = ast.unparse(x.test).replace(' ', '')
+                        val = None
+                        if t_ in ('self.accumulating', 'self.accumulating==1', 'self.accumulating==True', 'self.accumulating!=0'):
+                            val = acc
+                        elif t_ in ('notself.accumulating', 'self.accumulating==0', 'self.accumulating==False', 'self.accumulating!=1'):
+                            val = not acc
+                        if val is not None:
+                            got |= states_set(x.body if val else x.orelse, acc)
+                            continue
+                    for c_ in ast.walk(x):
+                        if isinstance(c_, ast.Call) and ast.unparse(c_.func) == 'self.set_conveyor_state':
+                            got |= names_in(c_)
+                return got
             try:
                 for (E, S), w in want.items():
                     taken = next((body for t, body in branches if ev_(t, E, S)), None)
-                    got = set()
-                    for x in (taken or []):
-                        for c_ in ast.walk(x):
-                            if isinstance(c_, ast.Call) and ast.unparse(c_.func) == 'self.set_conveyor_state':
-                                got |= names_in(c_)
+                    got = states_set(taken or [], None)
                     if got != w and not (E and got == set() and False):
                         why = why or (f'when the belt is {"empty" if E else "not empty"} and {"stalled" if S else "not stalled"} the behaviour sets '
                                       f'{sorted(got) or "no state"}, expected {sorted(w)}')
+                    if (E, S) == (False, True) and not why:
+                        for acc, wst in ((True, {'STALLED_ACCUMULATING_STATE'}), (False, {'STALLED_NONACCUMULATING_STATE'})):
+                            g2 = states_set(taken or [], acc)
+                            if g2 != wst:
+                                why = (f'a stalled {"accumulating" if acc else "non-accumulating"} belt is put into {sorted(g2) or "no state"}, expected {sorted(wst)}: '
+                                       f'items {"stop instead of closing up" if acc else "close up instead of stopping"}')
             except ValueError as e_:
                 why = f'the state dispatch tests `{e_}`, which is not a combination of is_empty() / is_stalled()'
         (r.ok if not why else r.fail)('C13.R3', key3, 'empty → IDLE, moving → MOVING, stalled → STALLED_(NON)ACCUMULATING' if not why else why, src(b.module), b.node.lineno)
